@@ -228,6 +228,18 @@ CHECKS.update({
         design='DESIGN.md §4 C19', engine='c19'),
 })
 
+CHECKS.update({
+    'C20': dict(
+        technique='exhaustive enumeration of partially computed name-mode stores x migration call sequences (<= 3) on the real migrate_to_parameter_mode; tree-digest and zero-run oracles',
+        text='For each world (chain with file and directory results, diamond, a line with one task per storable data class, two parameterless tasks with equal hashes incl. a directory '
+             'result holding a relative symlink to its input, a used config under a namespace, the same task under two namespaces from two files, a non-main part of a multi-config file) '
+             'every present/absent subset of name-mode results is prepared, then every sequence of length <= 3 over {migrate(dry=True), migrate(dry=False)} is run. After a real migration the '
+             'parameter-mode chain on the target must hold results for exactly the computations that had one, load values equal to the originals and run nothing; the digest of the source tree '
+             '(files, directories, contents, links) must be identical before and after every call; a second migration must leave the target unchanged; dry runs must write no file.',
+        note='Known finding K5 (inspection creates `<task>/` and `<name>_tmp/` directories in the source) is matched only when the change consists of directories alone; any file change is reported.',
+        design='DESIGN.md §4 C20', engine='worlds+refmodel+fsops'),
+})
+
 PENDING_REASON = 'check not built yet in this round (planned per DESIGN.md §4; technique applies)'
 
 
